@@ -192,6 +192,108 @@ func eval(p P) (outcome string, reached bool, v *mc.Viol) {
 	}
 }
 
+// ---- presentation sequences on ONE issuer object ------------------------------------------
+//
+// An issuer verifies many tokens in its life: the verdict on a token must not depend on what it
+// was shown before (a tampered twin with the same nonce, the same token, a token of another key).
+
+type SeqP struct {
+	IssuerType int   `json:"issuer_type"`
+	IssuerKey  int   `json:"issuer_key"`
+	Steps      []int `json:"steps"` // indices into seqMenu
+}
+
+var seqMenuNames = []string{"token A as issued", "token A, authenticator bit flipped (same nonce)", "token A, last authenticator bit flipped", "token A, nonce bit flipped", "token A, context bit flipped",
+	"token B as issued (same key)", "token B, authenticator of token A", "token of another key as issued", "token A with the authenticator recomputed for a changed nonce (valid, new nonce)"}
+
+func seqMenu(seed int64, it, ik int) ([]tokens.Token, error) {
+	a, err := makeHonest(seed, it, ik, 0)
+	if err != nil {
+		return nil, err
+	}
+	b, err := makeHonest(seed, it, ik, 1)
+	if err != nil {
+		return nil, err
+	}
+	ok := 0
+	if ik == 0 {
+		ok = 3
+	}
+	o, err := makeHonest(seed, it, ok, 0)
+	if err != nil {
+		return nil, err
+	}
+	cp := func(h honest) tokens.Token {
+		return tokens.Token{TokenType: uint16(h.T), Nonce: append([]byte{}, h.N...), Context: append([]byte{}, h.C...), KeyID: append([]byte{}, h.ID...), Authenticator: append([]byte{}, h.A...)}
+	}
+	m := make([]tokens.Token, 9)
+	m[0] = cp(a)
+	m[1] = cp(a)
+	m[1].Authenticator[0] ^= 0x80
+	m[2] = cp(a)
+	m[2].Authenticator[len(a.A)-1] ^= 0x01
+	m[3] = cp(a)
+	m[3].Nonce[5] ^= 0x04
+	m[4] = cp(a)
+	m[4].Context[31] ^= 0x01
+	m[5] = cp(b)
+	m[6] = cp(b)
+	m[6].Authenticator = append([]byte{}, a.A...)
+	m[7] = cp(o)
+	m[8] = cp(a)
+	m[8].Nonce[0] ^= 0x01
+	m[8] = recompute(m[8], it, ik)
+	return m, nil
+}
+
+func evalSeq(seed int64, q SeqP) (string, *mc.Viol) {
+	menu, err := seqMenu(seed, q.IssuerType, q.IssuerKey)
+	if err != nil {
+		return "harness", nil
+	}
+	is := issuerFor(q.IssuerType, q.IssuerKey)
+	hist := ""
+	out := ""
+	for n, st := range q.Steps {
+		if st < 0 || st >= len(menu) {
+			return "harness", nil
+		}
+		src := menu[st]
+		// the issuer gets its own copy of every presentation (the caller's buffers are reused)
+		tok := tokens.Token{TokenType: src.TokenType, Nonce: append([]byte{}, src.Nonce...), Context: append([]byte{}, src.Context...), KeyID: append([]byte{}, src.KeyID...), Authenticator: append([]byte{}, src.Authenticator...)}
+		want := refEval(q.IssuerType, q.IssuerKey, refInput(tok.TokenType, tok.Nonce, tok.Context, tok.KeyID))
+		refAccept := bytes.Equal(want, tok.Authenticator)
+		var verr error
+		if pn := mc.CatchStack(func() { verr = is.Verify(tok) }); pn != "" {
+			return "verify-panic", &mc.Viol{Sig: fmt.Sprintf("type%d.Verify panics in a sequence of presentations", q.IssuerType), What: hist + seqMenuNames[st] + ": " + pn}
+		}
+		for _, b := range [][]byte{tok.Nonce, tok.Context, tok.KeyID, tok.Authenticator} {
+			for i := range b {
+				b[i] = 0xEE
+			}
+		}
+		if (verr == nil) != refAccept {
+			verdict, should := "rejects", "accepts"
+			if verr == nil {
+				verdict, should = "accepts", "rejects"
+			}
+			when := "as the first presentation"
+			if n > 0 {
+				when = "after earlier presentations to the same issuer object"
+			}
+			return "verdict-depends-on-history", &mc.Viol{Sig: fmt.Sprintf("type%d.Verify %s [%s] %s; the reference %s it", q.IssuerType, verdict, seqMenuNames[st], when, should),
+				What: fmt.Sprintf("issuer key %d, history: %s-> %s (err %v)", q.IssuerKey, hist, seqMenuNames[st], verr)}
+		}
+		if refAccept {
+			out += "A"
+		} else {
+			out += "r"
+		}
+		hist += seqMenuNames[st] + "; "
+	}
+	return "verdicts-agree:" + out, nil
+}
+
 // ---- honest tokens -----------------------------------------------------------------------
 
 type honest struct {
@@ -489,6 +591,14 @@ func main() {
 		_, _, v := eval(p)
 		return v
 	})
+	r.RegisterReplay("sequence", func(pj json.RawMessage) *mc.Viol {
+		var q SeqP
+		if err := json.Unmarshal(pj, &q); err != nil {
+			return &mc.Viol{Sig: "bad-params", What: err.Error()}
+		}
+		_, v := evalSeq(r.Seed, q)
+		return v
+	})
 	if r.IsReplay() {
 		r.DoReplay()
 	}
@@ -560,12 +670,47 @@ func main() {
 		return p
 	}
 
-	r.SetRule("honest tokens (type x key x input, each from a full wire issuance) crossed with: every single-bit flip of the marshalled token presented to the issuing key through the real decoder; the wire bytes presented to every issuer (both types, all keys) through that issuer's decoder; a fixed list of hand-built tokens.Token structs (moved field boundaries, empty/nil fields, key id 31/33 bytes, authenticator nil/shortened/extended/every proper prefix/of another token, foreign token types, 64 KiB context, authenticator recomputed by the reference for the target key) presented to every issuer; every case is a distinct (token, issuer) pair; non-trivial = the token reached Verify (was not already refused by the decoder)")
+	r.SetRule("honest tokens (type x key x input, each from a full wire issuance) crossed with: every single-bit flip of the marshalled token presented to the issuing key through the real decoder; the wire bytes presented to every issuer (both types, all keys) through that issuer's decoder; a fixed list of hand-built tokens.Token structs (moved field boundaries, empty/nil fields, key id 31/33 bytes, authenticator nil/shortened/extended/every proper prefix/of another token, foreign token types, 64 KiB context, authenticator recomputed by the reference for the target key) presented to every issuer; every sequence up to the depth over a 9-letter menu of presentations (as issued, tampered twins with the same nonce, other token, other key, valid token with a new nonce) on ONE issuer object per type; every case is a distinct (token, issuer) pair or sequence; non-trivial = the token reached Verify (was not already refused by the decoder)")
 	r.Assume("keys come from a fixed alphabet (derived keys and the scalars 1 and N-1), nonces/challenges from fixed fillers; nothing is claimed for all 2^384 keys",
 		"reference VOPRF = RFC 9497 Evaluate recomposed from circl group primitives (hash-to-group, scalar multiplication, SHA-384/512 finalisation): it shares circl's group arithmetic with the implementation but not the oprf package's control flow or the token input construction",
 		"authenticator inputs longer than 65535 bytes are outside the VOPRF's domain and are not presented")
 	r.Set("dimensions", map[string]any{"types": types, "keys_per_type": keys, "inputs_per_key": inputs, "honest_tokens": len(hs),
 		"bit_positions": map[string]int{"type1": 146 * 8, "type5": 162 * 8}, "struct_variants": map[string]int{"type1": len(vs[1]), "type5": len(vs[5])}, "issuers": len(types) * len(keys)})
+
+	// every sequence of presentations up to the depth on one issuer object
+	{
+		depth := mc.Pick(r, 3, 4)
+		var seqs []SeqP
+		for _, it := range types {
+			for _, ik := range []int{keys[0]} {
+				var rec func(cur []int)
+				rec = func(cur []int) {
+					if len(cur) > 0 {
+						seqs = append(seqs, SeqP{IssuerType: it, IssuerKey: ik, Steps: append([]int{}, cur...)})
+					}
+					if len(cur) == depth {
+						return
+					}
+					for m := range seqMenuNames {
+						rec(append(cur, m))
+					}
+				}
+				rec(nil)
+			}
+		}
+		r.Par(len(seqs), func(i int) {
+			if r.OutOfTime() {
+				r.NotExhaustive("time budget")
+				return
+			}
+			out, v := evalSeq(r.Seed, seqs[i])
+			if v != nil {
+				r.Violation("sequence", seqs[i], v)
+			}
+			r.Case(fmt.Sprintf("seq-t%d-%v", seqs[i].IssuerType, seqs[i].Steps), len(seqs[i].Steps) > 1, fmt.Sprintf("t%d sequence of %d: %s", seqs[i].IssuerType, len(seqs[i].Steps), strings.SplitN(out, ":", 2)[0]))
+		})
+		r.Set("presentation_sequences", map[string]any{"menu": seqMenuNames, "depth": depth, "sequences": len(seqs)})
+	}
 
 	r.Par(len(specs), func(i int) {
 		if r.OutOfTime() {
